@@ -2,6 +2,7 @@
 import json
 import random
 
+import e2e_engine as E2E
 import vf
 
 TRUSTED = [
@@ -156,5 +157,11 @@ def run(rep, tier, seed, replay):
                 rep.violation("the same payload yields different lines on different transports", dict(payload=repr(p)[:500], tcp=repr(d_["T"])[:500], udp=repr(d_["U"])[:500]))
                 break
     rep.extra["disagreements_with_model"] = nbad
+    if not replay and len(rep.violations) < 5:
+        E2E.run_listener_scenarios(rep, "C18", tier, seed)
+        E2E.run(rep, "C18", tier, seed, n_quick=4, n_thorough=60, gen=E2E.gen_order_case, key="e2e_order")
+        rep.cov["rule"] += ("; plus, against the built binary (main.go's wiring of the three listeners): %d UDP bursts against a packet queue of 0-4 entries (packets = processed + dropped, "
+                            "no line lost or doubled), the relay on every transport (%d runs: each non-empty line relayed once, in order), and %d datagram-order histories (a 1500-4500 line "
+                            "packet that ends by setting a gauge, directly followed by packets that move it)" % (rep.extra.get("e2e_bursts", 0), rep.extra.get("e2e_relay_runs", 0), rep.extra.get("e2e_order_cases", 0)))
     rep.sample(dict(case=cases[0][:200], impl=impl[0][:300]))
     rep.sample(dict(case=cases[-1][:200], impl=impl[-1][:300]))
